@@ -714,6 +714,10 @@ def gen_sv(rng, m, style="plain"):
             continue
         seen.add(st)
         mag = rng.random() if rng.random() < 0.8 else rng.random() * 10 ** (-rng.randint(2, 6))
+        if rng.random() < 0.3:      # exactly real / exactly imaginary amplitudes of either sign
+            re_, im_ = rng.choice([(mag, 0.0), (-mag, 0.0), (0.0, mag), (0.0, -mag)])
+            terms.append([st, re_, im_])
+            continue
         ph = rng.choice([0, 0, math.pi, math.pi / 2, rng.uniform(0, 6.28)])
         terms.append([st, mag * math.cos(ph), mag * math.sin(ph)])
     if all(abs(t[1]) + abs(t[2]) == 0 for t in terms):
@@ -2024,14 +2028,15 @@ def gen_simple_case(rng, fam=None):
     elif fam == "sv":
         s["terms"] = gen_sv(rng, m, rng.choice(["plain", "plain", "annot"]))
     elif fam == "svd":
-        k = rng.randint(0, 3)
+        k = rng.choice([0, 1, 2, 2, 3, 3, 4, 5])
         ps = gen_prob_list(rng, k) if k else []
         s["svd"] = [[gen_sv(rng, m, rng.choice(["plain", "annot"])), p] for p in ps]
     elif fam in ("bsd", "bsc", "bss"):
         k = rng.randint(0, 5)
         sts = []
+        style = rng.choice(["plain", "plain", "annot", "tag"])
         for _ in range(k):
-            st = gen_state_text(rng, m, "plain")
+            st = gen_state_text(rng, m, style)
             if st not in sts or fam == "bss":
                 sts.append(st)
         if fam == "bsd":
